@@ -1,6 +1,6 @@
 """C15 — closed-form trainers: theorems (Props/C15.lean) + correspondence K-C15 between
 Model/Trainers.lean (driver drv_c15, exact `Rat` arithmetic) and the real Shark trainers
-(harness/c15.cpp, harness/c15b.cpp, harness/c15c.cpp) on integer / dyadic datasets with explicit batch partitions:
+(harness/c15.cpp, harness/c15b.cpp, harness/c15c.cpp, harness/c15d.cpp) on integer / dyadic datasets with explicit batch partitions:
 single ops on fresh objects and histories `op ; op ; ...` executed on the SAME trainer / model / output objects
 (every step must give what fresh objects give).
 
@@ -23,8 +23,9 @@ MANIFEST = dict(
         "depend on the batch partition (meanvar_batch_independent, linreg_batch_independent, normalizers_batch_independent, lda_batch_independent); unit-variance normaliser: output mean 0 / variance 1 on "
         "non-constant columns, constant columns mapped to 0 (unitvariance_output, sqrt specified); unit-interval normaliser: range [0,1] attained, "
         "constant columns to 1/2 for the repaired trainer, and a witness theorem that the pinned source maps a constant column v to 1/2 - v (F-C15-1); "
-        "whitening: covariance t*I given the factor specification C*Cov*C^T = I (whitening_output, linear_image_covariance), which ZCA's Q*diag(1/sqrt D)*Q^T "
-        "meets given the eigen-solver specification (zca_output_partial: regular covariance only, witness zca_partial_witness); PCA: orthonormal directions "
+        "whitening: covariance t*I given the factor specification C*Cov*C^T = I (whitening_output; whitening_output_general: t*C*Cov*C^T for any factor; linear_image_covariance); ZCA for EVERY covariance, "
+        "singular included (zca_output, replaces zca_output_partial): with the eigen-solver specification and the scales the trainer computes (zca_scale_spec: 1/sqrt(D_k), 0 on cleared directions) the "
+        "output covariance is t times the orthogonal projector Q*diag(e)*Q^T onto the kept eigen-directions (symmetric, idempotent), t*I in the regular case (zca_output_regular); PCA: orthonormal directions "
         "=> decoder(encoder(x)) is idempotent, its residual is orthogonal to all directions and it is the closest point of mean+span (pca_projection; "
         "pca_projection_general for systems whose columns are unit or zero vectors, as the repaired small-sample branch returns); "
         "small-sample branch: eigenvectors of XX^T/l lift to eigenvectors of the covariance with the same eigenvalue and squared norm l*lambda "
@@ -32,7 +33,15 @@ MANIFEST = dict(
         "(pca_whitened_covariance); "
         "LDA: the matrix assembled from second moments is the pooled within-class covariance (lda_pooled_covariance, wlda_pooled_covariance for positive weights); with z_c*C = m_c the installed linear discriminant ranks classes exactly like the Gaussian log-posterior with shared covariance C "
         "(lda_bayes_rule_partial: excludes singular covariances whose range misses the class means, witness lda_partial_witness), statistics batch independent (lda_batch_independent); weighted LDA statistics are invariant under scaling all weights "
-        "(weights_scale_invariant); FisherLDA's global mean sum_c n_c m_c / n is the mean of the inputs (fisher_mean; the pinned source divides twice, F-C15-6). "
+        "(weights_scale_invariant); LDA::train assembled from these statistics, the solver and the bias (ldaTrainDiscriminant) ranks classes like the Gaussian log-posterior of its estimates given only the solver specification "
+        "'returns a solution whenever one exists' (lda_train_bayes_rule_partial); FisherLDA's global mean sum_c n_c m_c / n is the mean of the inputs (fisher_mean); the matrix meanAndScatter hands to the eigen-solver "
+        "satisfies Sw*M = Sb by C02's solve_spd_correct (fisher_scatter_spec, no solver specification assumed), such an M is not symmetric (fisher_scatter_not_symmetric_witness, F-C15-7) and the Cholesky-symmetrised "
+        "eigenproblem of the proposed repair yields directions with Sb*w = lambda*Sw*w (fisher_symmetrised_direction). "
+        "Kernel trainers (Model/TrainersKernel.lean, any kernel function as a parameter): NormalizeKernelUnitVariance -- for a symmetric kernel the batch-pair loop computes the feature-space variance and the installed factor makes it "
+        "exactly 1 unless it is 0 (nkuv_unit_variance, F-C15-10), batch independent (nkuv_batch_independent), symmetry is necessary (nkuv_needs_symmetry); KernelMeanClassifier -- decision values differ by -1/2 the difference of the squared "
+        "feature-space distances to the weighted class means, binary value = decision_1 - decision_0 (kmean_nearest_mean), invariant under scaling all weights (kmean_weights_scale_invariant) and under re-batching (kmean_batch_independent); "
+        "RegularizationNetworkTrainer -- coefficients solving (K + noise*I)*alpha = l - mean(l) make every partial derivative of 1/2 sum (f(x_i)-l_i)^2 + noise/2 alpha^T K alpha vanish (regnet_stationary), and in the Cholesky branch "
+        "this holds END TO END through the C02 model of potrf + triangular solves (regnet_train_cholesky_stationary uses C02.solve_spd_correct; hypotheses: potrf returns 0, sqrt at the pivots), batch independent (regnet_batch_independent). "
         "Objects used more than once: the model follows remora's matrix::resize (the linear storage keeps its old numbers, Mat.resize) and proves that "
         "meanvar into an output matrix of any previous shape and content yields the covariance (meanvar_output_reuse), that PCA::setData leaves the same "
         "decomposition on every object whatever it decomposed before, in either branch (pca_setData_history_independent, pca_reused_object_models, "
@@ -40,7 +49,8 @@ MANIFEST = dict(
         "The model (Model/Trainers.lean) is tied to the real trainers on every run by a differential correspondence on integer datasets with explicit "
         "batch partitions, single ops on fresh objects AND histories `op ; op ; ...` of 2-4 ops executed on the SAME trainer, model and output objects "
         "(PCA object through setData / train / the data constructor with whitening, algorithm and number of components changed in between; "
-        "LinearRegression, LDA (unweighted and weighted mixed) and FisherLDA re-configured through their setters or setParameterVector; one Normalizer "
+        "LinearRegression, LDA (unweighted and weighted mixed) and FisherLDA re-configured through their setters or setParameterVector; RegularizationNetworkTrainer (kernel and regularisation through setC / setParameterVector and -- "
+        "when they compile, F-C15-9 -- setNoiseVariance / setPrecision), KernelMeanClassifier, NormalizeKernelUnitVariance and their KernelExpansion / KernelClassifier / ScaledKernel objects re-used across both kernels; one Normalizer "
         "model re-trained with and without offset; one LinearModel shared by regression, whitening and ZCA; meanvar output arguments that arrive "
         "filled; new data of another shape incl. more features than points after fewer and vice versa, the same data under another configuration, "
         "identical repetition) -- every step of a history is judged against the model of that step alone, i.e. must equal what fresh objects give, and "
@@ -50,29 +60,37 @@ MANIFEST = dict(
         "(A*beta = X^T L, s*s = var, W*Cov*W^T = t*I, Cov*v = lambda*v, V^T V = I, z*Cov = m) in exact rational arithmetic on the returned doubles "
         "(relative 1e-9); plus an independent plain-loop property oracle in the harness (gradient, output mean/variance/range/covariance, "
         "orthonormality, projection, batch-partition invariance of every trainer (whitening: of W^T W, the factor itself is not unique; regular covariances only), "
-        "weight-scale invariance, variance()/covariance() wrappers)."),
-  note=TRUST + "NOT proved: the specifications of sqrt/log/eigen-solver/pivoted Cholesky (hypotheses, checked at "
-       "run time on the returned values), that ZCA's Q*D^(-1/2)*Q^T satisfies the factor specification, lda_bayes_rule (LDA is covered by the "
-       "correspondence only: class means, pooled covariance, solve specification, bias vs log prior), FisherLDA (not modelled), floating-point rounding. "
+        "weight-scale invariance (LDA, KernelMeanClassifier: x2, x3, x1/8), variance()/covariance() wrappers; kernel trainers with LinearKernel and PolynomialKernel(2,1), both exact on the generated data: regnet residual and gradient, "
+        "kmean nearest-mean identity on every training point, nkuv unit variance through the real ScaledKernel); FisherLDA's scatter matrix is compared with the model (Sw*M = Sb in exact arithmetic on the returned doubles). "
+        "Degenerate data on every run (boundary block per op: n = 1, two equal points, all points equal, constant column, duplicated rows, d > n, single class, one example per class, zero-weight example / class / all weights zero), "
+        "distribution measured on the generated text (evidence: degenerate_data, boundary_cases)."),
+  note=TRUST + "NOT proved: the specifications of sqrt/log/the symmetric eigen-solver and of the PIVOTED Cholesky solver (symm_semi_pos_def: linear regression, LDA, whitening, the ill-conditioned branch of "
+       "RegularizationNetworkTrainer) -- hypotheses (SolverSpec, RightSolverSpec, factor specification), checked at run time on the returned values; C02 models pstrf and the semi-definite solve but has no theorem about them, so only the "
+       "symm_pos_def call sites (RegularizationNetworkTrainer's Cholesky branch, FisherLDA::meanAndScatter) compose with C02 theorems. Two theorems stay _partial: lda_bayes_rule_partial / lda_train_bayes_rule_partial "
+       "(hypothesis: Z*C = means solvable; fails only for a singular pooled covariance whose range misses a class mean -- lda_partial_witness; the real code was run there (corpus f4, boundary block 'all-points-equal'/'constant-column' with reg = 0): "
+       "it returns the finite pseudo-inverse solution, no defect, but the Gaussian model is degenerate, so no Bayes statement exists to prove). Optimality (not just stationarity) of the regularisation network needs K positive semi-definite "
+       "and is not stated. FisherLDA's returned directions are not proved optimal (open finding F-C15-7: they are not); floating-point rounding. LassoRegression (iterative coordinate descent, no closed form) and the SVM / SGD trainers are outside this property. "
        "PCA whitening and toleranced comparisons are behind the eigen-solver (toleranced mode). The history-independence theorems are about the object "
        "model (PcaObject, meanvarInto); for the other trainers (no state besides their configuration) and for the models (setStructure overwrites) "
        "independence of earlier use is checked by the correspondence on generated histories only (generator-bounded: 2-4 steps). Large-magnitude data "
-       "(2^6 and more) together with tiny regularisation is not generated: the rounding error of the ill-conditioned solves exceeds the comparison tolerances. Findings F-C15-1..8 (findings_proposed/C15.md): the check "
-       "reports VIOLATION on the unpatched tree and is green on a tree with findings_proposed/C15.patch applied.",
+       "(2^6 and more) together with tiny regularisation is not generated: the rounding error of the ill-conditioned solves exceeds the comparison tolerances. Findings F-C15-1..10 (findings_proposed/C15.md): 1-6 and 8 are fixed in /repo; open: F-C15-7 (FisherLDA, patch C15-F-C15-7.patch), "
+       "F-C15-9 (RegularizationNetworkTrainer::setNoiseVariance/setPrecision cannot be instantiated, compile probe, patch C15-F-C15-9.patch), F-C15-10 (NormalizeKernelUnitVariance installs the factor 1/0 on data without feature-space variance, "
+       "patch C15-F-C15-10.patch); the check is green with no known finding hit on a tree with the three patches applied.",
   technique="Lean 4 proofs over exact rational arithmetic (all sizes, dimensions, batch partitions) + differential correspondence with the C++ trainers (ASan/UBSan, FE_INEXACT-gated exact comparison)",
   design="§6 C15")
 
 FINISH = dict(level="proof",
               rule="one op = one trainer call on an integer dataset with an explicit batch partition (SplitMix64 stream): "
-                   "meanvar, unitvar, unitint, linreg, whiten, zca, pca/pcat/pcac (setData, train, constructor), lda, wlda, fisher, optionally `@s` "
+                   "meanvar, unitvar, unitint, linreg, whiten, zca, pca/pcat/pcac (setData, train, constructor), lda, wlda, fisher, regnet, kmean, nkuv, optionally `@s` "
                    "(dyadic fractions); a line is one op on fresh objects or a history `op ; op ; ...` on the same objects; a case is non-trivial if it "
                    "is a history or has >1 batch, a constant column, rank deficiency or d>n; distinct = distinct line text")
 
 ENV = {"OPENBLAS_NUM_THREADS": "1", "OMP_NUM_THREADS": "1"}
 HARNESS_A_OPS = ("meanvar", "unitvar", "unitint", "linreg", "whiten", "zca")
+HARNESS_D_OPS = ("regnet", "kmean", "nkuv")
 # families of ops whose steps share objects in a history `op ; op ; ...` (same harness executable, same Session members)
 FAMILIES = {"stat": ["meanvar"], "norm": ["unitvar", "unitvar", "unitint"], "lin": ["linreg", "linreg", "whiten", "zca"],
-            "pca": ["pca"], "lda": ["lda", "wlda"], "fisher": ["fisher"]}
+            "pca": ["pca"], "lda": ["lda", "wlda"], "fisher": ["fisher"], "kern": ["regnet", "regnet", "kmean", "kmean", "nkuv"]}
 SEP = " ; "
 
 
@@ -212,14 +230,15 @@ def gen_case(r, ctx, op, part=None, n=None, hist=False):
         part = part or gen_partition(r, n)
         return f"{name} {wh} {alg} {m} " + table(n, d, part, rows)
     if op in ("lda", "wlda"):
-        classes = r.choice([2, 2, 3, 4])
+        classes = r.choice([1, 2, 2, 2, 3, 4])
         n, d, rows = gen_matrix(r, ctx, n=n or r.choice([classes, classes + 1, classes + 2, 6, 8, 9, 12, 16]), allow_wide=r.chance(1, 8))
         labels = [i % classes for i in range(n)] if r.chance(4, 5) else [r.below(classes) for _ in range(n)]
+        zero_w = op == "wlda" and r.chance(1, 4)                  # some examples (possibly a whole class) with weight 0
         # class-dependent shift so that the class means differ
         for i, row in enumerate(rows):
             for j in range(d): row[j] += labels[i] * ((j % 2) * 2 - 1) * (j + 1) if r.chance(3, 4) else 0
             row.append(labels[i])
-            if op == "wlda": row.append(r.choice([1, 1, 2, 3, 5, 8]))
+            if op == "wlda": row.append(r.choice([0, 0, 1, 2]) if zero_w else r.choice([1, 1, 2, 3, 5, 8]))
         reg_num, reg_shift = r.choice([(0, 0), (0, 0), (1, 0), (1, 3), (1, 10), (5, 1)])
         ctx.hist("lda_reg", f"{reg_num}/2^{reg_shift}")
         part = part or gen_partition(r, n)
@@ -236,7 +255,86 @@ def gen_case(r, ctx, op, part=None, n=None, hist=False):
         if dims == 0 and classes > d and not r.chance(1, 3): dims = d       # default dimension = #classes > d: F-C15-8
         part = part or gen_partition(r, n)
         return f"fisher {r.below(2)} {dims} " + table(n, d, part, rows)
+    if op == "regnet":
+        n, d, rows = gen_matrix(r, ctx, n=n)
+        k = r.choice([1, 1, 2, 3])
+        W = [[r.range(-3, 3) for _ in range(d)] for _ in range(k)]; b = [r.range(-3, 3) for _ in range(k)]
+        for row in rows:
+            x = row[:d]
+            row += [sum(W[c][j] * x[j] for j in range(d)) + b[c] + r.range(-2, 2) for c in range(k)]
+        kern = r.choice([0, 0, 1])
+        # noise variance: powers of two and a few other dyadic values; 2^-10 and 2^-14 with large kernel values take the
+        # semi-definite branch of the trainer (noiseVariance/max(diag) < 1e-5)
+        b_num, b_shift = r.choice([(1, 0), (1, 0), (1, 1), (1, 3), (4, 0), (3, 1), (5, 0), (1, 10), (1, 14)])
+        ctx.hist("regnet_noise", f"{b_num}/2^{b_shift}")
+        ctx.hist("kernel", f"regnet:{'linear' if kern == 0 else 'poly2'}")
+        part = part or gen_partition(r, n)
+        return f"regnet {kern} {b_num} {b_shift} {k} " + table(n, d, part, rows)
+    if op == "kmean":
+        classes = r.choice([1, 2, 2, 2, 3, 4])
+        n, d, rows = gen_matrix(r, ctx, n=n or r.choice([classes, classes + 1, classes + 2, 4, 6, 8, 9, 12]))
+        labels = [i % classes for i in range(n)] if r.chance(3, 4) else [r.below(classes) for _ in range(n)]
+        weighted = r.below(2)
+        zero_w = weighted and r.chance(1, 3)
+        for i, row in enumerate(rows):
+            for j in range(d): row[j] += labels[i] * ((j % 2) * 2 - 1) * (j + 1) if r.chance(3, 4) else 0
+            row.append(labels[i])
+            if weighted: row.append(r.choice([0, 0, 1, 2]) if zero_w else r.choice([1, 1, 2, 3, 5, 8]))
+        kern = r.choice([0, 0, 1])
+        ctx.hist("kernel", f"kmean:{'linear' if kern == 0 else 'poly2'}")
+        ctx.hist("kmean_classes", len(set(labels)))
+        part = part or gen_partition(r, n)
+        return f"kmean {kern} {weighted} " + table(n, d, part, rows)
+    if op == "nkuv":
+        n, d, rows = gen_matrix(r, ctx, n=n)
+        if n == 1 and r.chance(3, 4): n, d, rows = gen_matrix(r, ctx, n=r.range(2, 8))
+        kern = r.choice([0, 0, 1])
+        ctx.hist("kernel", f"nkuv:{'linear' if kern == 0 else 'poly2'}")
+        part = part or gen_partition(r, n)
+        return f"nkuv {kern} " + table(n, d, part, rows)
     raise ValueError(op)
+
+
+def gen_boundary(r, ctx, op):
+    """the degenerate datasets the property quantifies over, for one op, on every run: a single point, two equal points,
+    all points equal, a constant column, more features than points (d = n + 1), duplicated rows; for the classifiers a single
+    class and one example per class, for weighted training zero weights (one example / a whole class)"""
+    out = []
+    base = gen_case(r, ctx, op, part=None, n=4)
+    try:
+        head, n, d, extra, sizes, rows = parse_op(base)
+    except Exception:
+        return [base]
+    name = head[0]
+    def fix(hd, dd, rs):
+        hd = list(hd)
+        if name in ("pca", "pcat", "pcac"): hd[3] = "0"                 # default number of components
+        if name == "fisher": hd[2] = str(min(int(hd[2]), dd))
+        return hd
+    def emit(kind, rs, dd=d, parts=None):
+        rs = [list(x) for x in rs]
+        nn = len(rs)
+        if op in ("lda", "wlda", "fisher", "kmean"):                    # class labels stay contiguous from 0
+            ds = len(rs[0]) - extra
+            rank = {c: i for i, c in enumerate(sorted({x[ds] for x in rs}))}
+            for x in rs: x[ds] = rank[x[ds]]
+        for ps in (parts or [[nn], [1] * nn]):
+            out.append(build_op(fix(head, dd, rs), dd, ps, rs)); ctx.hist("boundary_cases", f"{op}:{kind}")
+    emit("n=1", rows[:1])
+    emit("two-equal-points", [rows[0], rows[0]])
+    emit("all-points-equal", [rows[1]] * 4)
+    emit("constant-column", [[7] + x[1:] for x in rows])
+    emit("duplicated-rows", [rows[0], rows[1], rows[0], rows[1], rows[2]], parts=[[5], [2, 3], [1, 1, 1, 1, 1]])
+    wide = [[(3 * i + 2 * j) % 5 - 2 for j in range(4)] + rows[i][d:] for i in range(3)]
+    emit("d>n", wide, dd=4)
+    if op in ("lda", "wlda", "fisher", "kmean"):
+        emit("single-class", [x[:d] + [0] + x[d + 1:] for x in rows])
+        emit("one-example-per-class", [x[:d] + [i] + x[d + 1:] for i, x in enumerate(rows[:3])])
+    if op == "wlda" or (op == "kmean" and extra == 2):
+        emit("zero-weight-example", [x[:d + 1] + [0 if i == 1 else 2] for i, x in enumerate(rows)])
+        emit("zero-weight-class", [x[:d + 1] + [0 if x[d] == rows[0][d] else 1] for x in rows])
+        emit("all-weights-zero", [x[:d + 1] + [0] for x in rows])
+    return out
 
 
 def gen_all_partitions(r, ctx, op):
@@ -266,11 +364,16 @@ def retable(new, old):
 def _retable(hn, ho, no, do, en, eo, so, rows, full):
     if hn[0] == "linreg" and ho[0] == "linreg":
         hn = hn[:3] + [ho[3]]
+    elif hn[0] == "regnet" and ho[0] == "regnet":
+        hn = hn[:4] + [ho[4]]
+    elif hn[0] == "kmean" and ho[0] == "kmean":
+        if hn[2] == "0": rows = [x[:do + 1] for x in rows]
+        elif eo == 1: rows = [x + [1 + (i * 7) % 3] for i, x in enumerate(rows)]
     elif hn[0] == "lda" and ho[0] == "wlda":
         rows = [x[:do + 1] for x in rows]
     elif hn[0] == "wlda" and ho[0] == "lda":
         rows = [x + [1 + (i * 7) % 3] for i, x in enumerate(rows)]
-    elif en != eo:
+    elif en != eo or (en > 0 and hn[0] != ho[0]):
         raise ValueError("incompatible columns")
     if hn[0] in ("pca", "pcat", "pcac"):
         alg, m = int(hn[2]), int(hn[3])
@@ -347,7 +450,7 @@ def run_lines(ctx, exes, drv, lines, timeout=900):
     groups = {}
     for i, l in enumerate(lines):
         op = opname(l)
-        groups.setdefault("a" if op in HARNESS_A_OPS else "c" if op == "fisher" else "b", []).append(i)   # histories stay within one family
+        groups.setdefault("a" if op in HARNESS_A_OPS else "d" if op in HARNESS_D_OPS else "c" if op == "fisher" else "b", []).append(i)   # histories stay within one family
     for g, idx in groups.items():
         exe = exes[g]
         text = "\n".join(lines[i] for i in idx) + "\n"
@@ -393,9 +496,10 @@ def parse_op(line):
     t = line.split()
     op = t[0].split("@")[0]
     nhead = {"meanvar": 1, "unitint": 1, "unitvar": 2, "linreg": 4, "whiten": 3, "zca": 3, "pca": 4, "pcat": 4, "pcac": 4,
-             "lda": 3, "wlda": 3, "fisher": 3}[op]
+             "lda": 3, "wlda": 3, "fisher": 3, "regnet": 5, "kmean": 3, "nkuv": 2}[op]
     head = t[:nhead]
-    extra = int(t[3]) if op == "linreg" else 1 if op in ("lda", "fisher") else 2 if op == "wlda" else 0
+    extra = (int(t[3]) if op == "linreg" else int(t[4]) if op == "regnet" else 1 + int(t[2]) if op == "kmean" else
+             1 if op in ("lda", "fisher") else 2 if op == "wlda" else 0)
     n, d, nb = int(t[nhead]), int(t[nhead + 1]), int(t[nhead + 2])
     sizes = [int(x) for x in t[nhead + 3:nhead + 3 + nb]]
     vals = [int(x) for x in t[nhead + 3 + nb:]]
@@ -519,6 +623,13 @@ def classify(r):
     if op == "fisher" and set(r.oracle) == {"fisher-direction-not-stationary"} and r.model.startswith("ok "):
         return ("F-C15-7:fisherlda-nonsymmetric-eigenproblem",
                 f"FisherLDA feeds the non-symmetric Sw^-1*Sb to the symmetric eigen-solver; returned directions do not satisfy Sb*w = lambda*Sw*w: `{r.op}`", True)
+    if op == "nkuv" and ("nkuv-zero-variance" in r.model) and set(r.oracle) <= {"nkuv-nonfinite-factor"}:
+        return ("F-C15-10:nkuv-zero-feature-variance",
+                f"NormalizeKernelUnitVariance on data without variance in feature space (all points coincide) installs the factor 1/0 = inf "
+                f"(SHARK_ASSERT(tm > 0) is compiled out in release builds): `{r.op}` -> {r.impl[:80]}", True)
+    if op == "fisher" and "fisher-scatter" in r.model:
+        return ("mismatch:fisher:scatter", f"the matrix FisherLDA::meanAndScatter hands to the eigen-solver is not the solution of Sw*M = Sb for the "
+                f"model's scatter matrices: `{r.op}` -> {r.model[:200]}; oracle tags {r.oracle}", bool(r.oracle))
     if op == "lda" and "lda-n-equals-classes" in r.model:
         return ("F-C15-4:lda-n-equals-classes",
                 f"LDA divides the scatter matrix by n - classes = 0: `{r.op}` -> {r.impl[:80]}", True)
@@ -577,6 +688,30 @@ def load_corpus():
 
 LAKE_TARGETS = ["SharkVerif.Props.C15", "drv_c15"]
 
+REGNET_PROBE = """#include <shark/Algorithms/Trainers/RegularizationNetworkTrainer.h>
+#include <shark/Models/Kernels/LinearKernel.h>
+using namespace shark;
+double probe(){ LinearKernel<RealVector> k; RegularizationNetworkTrainer<RealVector> t(&k, 1.0); t.setNoiseVariance(0.5); t.setPrecision(4.0); return t.noiseVariance(); }
+"""
+
+
+def regnet_setters_compile(ctx):
+    """RegularizationNetworkTrainer::setNoiseVariance / setPrecision are members of a class template: whether they can be
+    instantiated is only seen when they are used (finding F-C15-9: `this->C() = ...` assigns to an rvalue).  Syntax-only
+    compile of a probe, cached by the content of the two headers involved."""
+    import hashlib
+    hdrs = [os.path.join(core.REPO, "include/shark/Algorithms/Trainers", h) for h in ("RegularizationNetworkTrainer.h", "AbstractSvmTrainer.h")]
+    key = hashlib.sha256(("".join(open(h).read() for h in hdrs) + REGNET_PROBE).encode()).hexdigest()[:16]
+    d = os.path.join(core.CACHE, "c15probe"); os.makedirs(d, exist_ok=True)
+    res = os.path.join(d, key + ".res")
+    if os.path.exists(res):
+        return open(res).read().strip() == "ok"
+    src = os.path.join(d, key + ".cpp"); open(src, "w").write(REGNET_PROBE)
+    pr = subprocess.run(["g++", "-std=c++11", "-DNDEBUG", "-w", "-fopenmp", "-fsyntax-only", "-I" + ctx.shark_h(),
+                         "-I" + os.path.join(core.REPO, "include"), src], capture_output=True, text=True)
+    open(res, "w").write("ok" if pr.returncode == 0 else "fail\n" + pr.stderr[-2000:])
+    return pr.returncode == 0
+
 
 def build(ctx):
     # three executables built one after the other: at most 3 compiler jobs of Shark translation units at a time
@@ -585,7 +720,9 @@ def build(ctx):
                                                       "src/Algorithms/NormalizeComponentsWhitening.cpp"])
     b = ctx.harness("c15b", ["c15b.cpp"], repo_sources=["src/Algorithms/PCA.cpp", "src/Algorithms/LDA.cpp", "src/Core/Random.cpp"])
     c = ctx.harness("c15c", ["c15c.cpp"], repo_sources=["src/Algorithms/FisherLDA.cpp"])
-    return {"a": a, "b": b, "c": c}
+    flags = ["-DC15_HAVE_REGNET_SETTERS"] if regnet_setters_compile(ctx) else []
+    d = ctx.harness("c15d" + ("s" if flags else ""), ["c15d.cpp"], repo_sources=["src/Core/Random.cpp"], flags=flags)   # header-only kernel trainers
+    return {"a": a, "b": b, "c": c, "d": d}
 
 
 def nontrivial(line):
@@ -599,13 +736,39 @@ def nontrivial(line):
         return False
 
 
+def degenerate(step):
+    """the degenerate-data classes of one op line (measured on the generated text, not on the generator's intent)"""
+    head, n, d, extra, sizes, rows = parse_op(step)
+    op = head[0].split("@")[0]
+    xs = [tuple(x[:d]) for x in rows]
+    out = []
+    if n == 1: out.append("n=1")
+    if n == 2: out.append("n=2")
+    if d > n: out.append("d>n")
+    if n > 1 and len(set(xs)) == 1: out.append("all-points-equal")
+    elif len(set(xs)) < n: out.append("duplicated-rows")
+    if n > 1 and any(len({x[j] for x in xs}) == 1 for j in range(d)): out.append("constant-column")
+    if all(v == 0 for x in xs for v in x): out.append("all-zero")
+    if max([abs(v) for x in xs for v in x] + [0]) >= 16: out.append("large-values")
+    if op in ("lda", "wlda", "fisher", "kmean"):
+        labs = [x[d] for x in rows]
+        if len(set(labs)) == 1: out.append("single-class")
+        if len(set(labs)) == n and n > 1: out.append("one-example-per-class")
+    if op == "wlda" or (op == "kmean" and extra == 2):
+        ws = [x[d + 1] for x in rows]
+        if any(w == 0 for w in ws): out.append("zero-weight")
+        if all(w == 0 for w in ws): out.append("all-weights-zero")
+    return out or ["none"]
+
+
 def run(ctx):
-    ctx.trusted += ["correspondence harnesses harness/c15.cpp, harness/c15b.cpp, harness/c15c.cpp + generator checks/c15.py",
-                    "hand-written model Model/Trainers.lean (the trainers are modelled, not translated)",
+    ctx.trusted += ["correspondence harnesses harness/c15.cpp, harness/c15b.cpp, harness/c15c.cpp, harness/c15d.cpp + generator checks/c15.py",
+                    "hand-written models Model/Trainers.lean, Model/TrainersKernel.lean (the trainers are modelled, not translated)",
                     "FE_INEXACT flag semantics (x86-64 SSE2, -ffp-contract=off, OPENBLAS_NUM_THREADS=1) for the exact comparisons",
                     "ASan/UBSan runtime for the real code's memory safety (not a theorem)"]
     ctx.assumptions += ["exact rational arithmetic: the theorems do not cover floating-point rounding",
-                        "sqrt, log, the symmetric eigen-solver and the positive semi-definite solver are parameters of the model; "
+                        "sqrt, log, the symmetric eigen-solver and the positive SEMI-definite (pivoted Cholesky) solver are parameters of the model -- the positive definite "
+                        "(Cholesky) solver is not: those call sites use the C02 model and theorem solve_spd_correct; "
                         "their specifications are hypotheses of the theorems and are checked on the values the real code returns"]
     ctx.prove(["SharkVerif.Props.C15"])
     if not ctx.quick:
@@ -617,9 +780,17 @@ def run(ctx):
     r = ctx.rng.fork("c15")
     corpus = load_corpus()
     ctx.cov["corpus_cases"] = len(corpus)
-    per = 400 if ctx.quick else 4000
+    per = 300 if ctx.quick else 3000
     lines = list(corpus)
-    for op in ("meanvar", "unitvar", "unitint", "linreg", "whiten", "zca", "pca", "lda", "wlda", "fisher"):
+    if not regnet_setters_compile(ctx):
+        ctx.violation("F-C15-9:regnet-setters-not-instantiable",
+                      {"probe": REGNET_PROBE, "compile": "g++ -std=c++11 -fsyntax-only -I<repo>/include probe.cpp"}, found_input=True,
+                      what="RegularizationNetworkTrainer::setNoiseVariance / setPrecision cannot be instantiated (`this->C() = ...` assigns to an rvalue)")
+    OPS = ("meanvar", "unitvar", "unitint", "linreg", "whiten", "zca", "pca", "lda", "wlda", "fisher", "regnet", "kmean", "nkuv")
+    for op in OPS:
+        for _ in range(2 if ctx.quick else 10):
+            lines += gen_boundary(r, ctx, op)
+    for op in OPS:
         lines += [gen_scaled(r, ctx, gen_case(r, ctx, op)) for _ in range(per)]
         for _ in range(3 if ctx.quick else 30):
             allp = gen_all_partitions(r, ctx, op)
@@ -635,6 +806,7 @@ def run(ctx):
             ctx.hist("op_mix", opname(st))
             try:
                 ctx.hist("batches", len(parse_op(st)[4]))
+                for f in degenerate(st): ctx.hist("degenerate_data", f"{opname(st)}:{f}"); ctx.hist("degenerate_data_all_ops", f)
             except Exception:
                 pass
     ctx.cov["evaluations"] = len(lines)
